@@ -30,23 +30,59 @@ func c11Fits(cl *rx.Node, word string, m rx.Mode, defs rx.Defs) bool {
 	return false
 }
 
+// c11Letters returns the items for a-z (or A-Z). In a case-insensitive grammar that has to
+// stay below a code point bound, k and s are left out: their case orbits contain U+212A and
+// U+017F, which would move the end of the symbol map.
+func c11Letters(g *rx.Gen, upper bool) []rx.Item {
+	rng := func(lo, hi rune) rx.Item { return rx.Item{Kind: rx.IRange, Lo: lo, Hi: hi} }
+	var d rune
+	if upper {
+		d = 'A' - 'a'
+	}
+	if g.MaxChar > 0 && g.Mode.Fold && !g.Mode.Bytes {
+		return []rx.Item{rng('a'+d, 'j'+d), rng('l'+d, 'r'+d), rng('t'+d, 'z'+d)}
+	}
+	return []rx.Item{rng('a'+d, 'z'+d)}
+}
+
 // c11ClassRE draws the pattern of a (class) rule.
 func c11ClassRE(r *rand.Rand, g *rx.Gen, m rx.Mode) *rx.Node {
 	rng := func(lo, hi rune) rx.Item { return rx.Item{Kind: rx.IRange, Lo: lo, Hi: hi} }
 	ch := func(c rune) rx.Item { return rx.Item{Kind: rx.IChar, Lo: c} }
-	switch k := r.Intn(10); {
+	items := func(parts ...[]rx.Item) []rx.Item {
+		var out []rx.Item
+		for _, p := range parts {
+			out = append(out, p...)
+		}
+		return out
+	}
+	az, AZ := c11Letters(g, false), c11Letters(g, true)
+	k := r.Intn(10)
+	if g.MaxChar > 0 && k < 8 {
+		k = 3 // a bounded grammar reaches its band through the letters of the class rule
+	}
+	switch {
 	case k < 3: // ASCII identifier
-		first := &rx.Class{Items: []rx.Item{rng('a', 'z'), ch('_')}}
-		rest := &rx.Class{Items: []rx.Item{rng('a', 'z'), rng('0', '9'), ch('_')}}
+		first := &rx.Class{Items: items(az, []rx.Item{ch('_')})}
+		rest := &rx.Class{Items: items(az, []rx.Item{rng('0', '9'), ch('_')})}
 		if r.Intn(2) == 0 {
-			first.Items = append(first.Items, rng('A', 'Z'))
-			rest.Items = append(rest.Items, rng('A', 'Z'))
+			first.Items = append(first.Items, AZ...)
+			rest.Items = append(rest.Items, AZ...)
 		}
 		return rx.Cat(rx.Cls(first), rx.Rep(rx.Cls(rest), 0, -1))
 	case k < 7: // letters beyond ASCII
 		var c *rx.Class
 		if m.Bytes {
 			c = &rx.Class{Items: []rx.Item{rng('a', 'z'), rng(0x80, 0xff)}}
+			if r.Intn(2) == 0 {
+				c.Items = append(c.Items, rng('0', '9'), ch('_'))
+			}
+		} else if g.MaxChar > 0 {
+			// the letters reach into the band of this grammar and not beyond
+			c = &rx.Class{Items: items(az)}
+			for _, br := range c11BandLetters(g.MaxChar) {
+				c.Items = append(c.Items, rng(br[0], br[1]))
+			}
 			if r.Intn(2) == 0 {
 				c.Items = append(c.Items, rng('0', '9'), ch('_'))
 			}
@@ -61,12 +97,45 @@ func c11ClassRE(r *rand.Rand, g *rx.Gen, m rx.Mode) *rx.Node {
 		}
 		return rx.Rep(rx.Cls(c), 1, -1)
 	case k < 8: // digits and underscores as well
-		c := &rx.Class{Items: []rx.Item{rng('a', 'z'), rng('0', '9'), ch('_')}}
+		c := &rx.Class{Items: items(az, []rx.Item{rng('0', '9'), ch('_')})}
 		return rx.Rep(rx.Cls(c), 1, -1)
 	default:
 		g.Reset()
 		return rx.Cat(rx.Cls(g.Class()), rx.Rep(rx.Cls(g.Class()), 0, -1))
 	}
+}
+
+// c11Bands are the upper bounds on the code points a grammar may mention, one per
+// representation regime of the rune-to-symbol map in generated lexers (flat array below
+// 2048 entries, 256-entry array plus compressed ranges above); 0 = no bound.
+var c11Bands = []rune{0xff, 0x7ff, 0xfff, 0xffff, 0x10fffe, 0, 0}
+
+func c11BandLetters(max rune) [][2]rune {
+	switch {
+	case max <= 0xff:
+		return [][2]rune{{0xc0, 0xd6}, {0xd8, 0xf6}}
+	case max <= 0x7ff:
+		return [][2]rune{{0x391, 0x3c9}, {0x410, 0x44f}}
+	case max <= 0xfff:
+		return [][2]rune{{0xe01, 0xe5b}, {0x905, 0x939}}
+	case max <= 0xffff:
+		return [][2]rune{{0x3041, 0x3096}, {0x4e00, 0x4e80}}
+	}
+	return [][2]rune{{0x1f600, 0x1f64f}, {0x10400, 0x1044f}}
+}
+
+func c11BandName(lastStart rune) string {
+	switch {
+	case lastStart < 256:
+		return "below-256"
+	case lastStart <= 2048:
+		return "256-2048"
+	case lastStart <= 4096:
+		return "2049-4096"
+	case lastStart <= 0x10000:
+		return "4097-65536"
+	}
+	return "astral"
 }
 
 type c11Gen struct {
@@ -94,7 +163,7 @@ func (b *c11Gen) add(rule rx.LexRule) {
 }
 
 // c11Grammar draws a lexer section for the given option vector.
-func c11Grammar(r *rand.Rand, name string, opts rx.LexOpts, simple bool) *rx.LexGrammar {
+func c11Grammar(r *rand.Rand, name string, opts rx.LexOpts, simple bool, band int) *rx.LexGrammar {
 	g := &rx.LexGrammar{Name: name, Opts: opts, Defs: rx.Defs{}, States: []rx.LexState{{Name: "initial"}}}
 	m := g.Mode()
 	alpha := rx.PickAlphabet(r, m)
@@ -108,7 +177,32 @@ func c11Grammar(r *rand.Rand, name string, opts rx.LexOpts, simple bool) *rx.Lex
 		}
 	}
 	alpha = append(keep, rune("abxyz"[r.Intn(5)]))
-	gen := &rx.Gen{R: r, Mode: m, Alpha: alpha, Defs: g.Defs, Props: !m.Bytes && r.Intn(2) == 0, FoldGroup: r.Intn(6) == 0, MaxRep: 4, ExactOnly: true, PropNames: lxPropNames()}
+	// rune mode: keep everything the grammar mentions below a bound, so that the symbol map
+	// ends in a chosen band (no Unicode categories then)
+	var maxChar rune
+	if !m.Bytes {
+		maxChar = c11Bands[band%len(c11Bands)]
+	}
+	g.Bound = maxChar
+	if maxChar > 0 {
+		keep = alpha[:0]
+		for _, c := range alpha {
+			if c < maxChar && !(m.Fold && strings.ContainsRune("kKsS", c)) {
+				keep = append(keep, c)
+			}
+		}
+		alpha = keep
+		for _, br := range c11BandLetters(maxChar) {
+			alpha = append(alpha, br[0]+rune(r.Intn(int(br[1]-br[0])+1)))
+		}
+	}
+	gen := &rx.Gen{R: r, Mode: m, Alpha: alpha, Defs: g.Defs, Props: !m.Bytes && maxChar == 0 && r.Intn(2) == 0, FoldGroup: r.Intn(6) == 0, MaxRep: 4, ExactOnly: true, PropNames: lxPropNames(), MaxChar: maxChar}
+	// tokens without a pattern in front of the rules: token ids then differ from rule numbers
+	if r.Intn(2) == 0 {
+		names := []string{"error", "invalid_token", "reserved1", "reserved2"}
+		r.Shuffle(len(names), func(i, j int) { names[i], names[j] = names[j], names[i] })
+		g.Decls = names[:1+r.Intn(2)]
+	}
 	// plain: no code, no start conditions, one rule per token, so that rule ids are inlined as token ids
 	plain := simple || r.Intn(3) == 0
 	b := &c11Gen{r: r, g: g, gen: gen, alpha: alpha, simple: simple, plain: plain}
@@ -157,7 +251,13 @@ func c11Grammar(r *rand.Rand, name string, opts rx.LexOpts, simple bool) *rx.Lex
 	for ci := 0; ci < nClass; ci++ {
 		cre := c11ClassRE(r, gen, m)
 		if simple {
-			cre = rx.Rep(rx.Cls(&rx.Class{Items: []rx.Item{{Kind: rx.IRange, Lo: 'a', Hi: 'z'}, {Kind: rx.IRange, Lo: '0', Hi: '9'}, {Kind: rx.IChar, Lo: '_'}}}), 1, -1)
+			sc := &rx.Class{Items: append(c11Letters(gen, false), rx.Item{Kind: rx.IRange, Lo: '0', Hi: '9'}, rx.Item{Kind: rx.IChar, Lo: '_'})}
+			if maxChar > 0 {
+				for _, br := range c11BandLetters(maxChar) {
+					sc.Items = append(sc.Items, rx.Item{Kind: rx.IRange, Lo: br[0], Hi: br[1]})
+				}
+			}
+			cre = rx.Rep(rx.Cls(sc), 1, -1)
 			if m.Bytes {
 				cre = rx.Rep(rx.Cls(&rx.Class{Items: []rx.Item{{Kind: rx.IRange, Lo: 'a', Hi: 'z'}, {Kind: rx.IRange, Lo: '0', Hi: '9'}, {Kind: rx.IChar, Lo: '_'}, {Kind: rx.IRange, Lo: 0x80, Hi: 0xff}}}), 1, -1)
 			}
@@ -233,6 +333,17 @@ func c11Grammar(r *rand.Rand, name string, opts rx.LexOpts, simple bool) *rx.Lex
 			b.add(rx.LexRule{Token: b.tok("op"), RE: rx.Lit(op), Switch: -1})
 		}
 	}
+	if !opts.NonBacktracking && r.Intn(2) == 0 {
+		// a short token and a longer one that starts with it: partial inputs fall back to the short one
+		punct := []rune("~^!|")
+		p0 := punct[r.Intn(len(punct))]
+		long := []rune{p0}
+		for k := 2 + r.Intn(2); k > 0; k-- {
+			long = append(long, []rune("~^!|=>")[r.Intn(6)])
+		}
+		b.add(rx.LexRule{Token: b.tok("short"), RE: rx.Ch(p0), Switch: -1})
+		b.add(rx.LexRule{Token: b.tok("long"), RE: rx.Lit(string(long)), Switch: -1})
+	}
 	for _, dn := range g.DefNames {
 		// every named pattern is used at least once
 		b.prio--
@@ -266,7 +377,7 @@ func c11Grammar(r *rand.Rand, name string, opts rx.LexOpts, simple bool) *rx.Lex
 			case k < 6: // line comment
 				body := &rx.Class{Neg: true, Items: []rx.Item{{Kind: rx.IChar, Lo: '\n'}}}
 				rule = rx.LexRule{Token: b.tok("comment"), RE: rx.Cat(rx.Ch('#'), rx.Rep(rx.Cls(body), 0, -1)), Space: r.Intn(2) == 0, Switch: -1}
-			case k < 7 && !m.Bytes: // a large Unicode class: pushes the symbol map beyond 2048
+			case k < 7 && !m.Bytes && maxChar == 0: // a large Unicode class: pushes the symbol map beyond 2048
 				names := []string{"L", "Lu", "Ll", "N", "S", "P", "Han", "Cyrillic", "Latin"}
 				c := &rx.Class{Items: []rx.Item{{Kind: rx.IProp, Name: names[r.Intn(len(names))]}}}
 				if r.Intn(2) == 0 {
@@ -548,10 +659,10 @@ func c11Compare(c *fw.Ctx, u *c11Unit, text string, want []rx.LexTok, tr *genrun
 }
 
 // c11SimpleFallback is used when no random grammar for an option vector compiled.
-func c11Build(c *fw.Ctx, r *rand.Rand, name string, opts rx.LexOpts) *c11Unit {
+func c11Build(c *fw.Ctx, r *rand.Rand, name string, opts rx.LexOpts, band int) *c11Unit {
 	for try := 0; try < 14; try++ {
 		simple := try >= 8
-		g := c11Grammar(r, name, opts, simple)
+		g := c11Grammar(r, name, opts, simple, band)
 		model := rx.NewLexModel(g)
 		bomConst := false
 		for i := range g.Rules {
@@ -608,7 +719,8 @@ func c11Case(c *fw.Ctx, vectors []int, nTexts int) {
 	for k, v := range vectors {
 		opts := rx.OptsFromVector(v)
 		name := fmt.Sprintf("x%02d", k)
-		u := c11Build(c, c.SubRand(k), name, opts)
+		// the bound on mentioned code points cycles independently of the option vector
+		u := c11Build(c, c.SubRand(k), name, opts, c.Case*len(vectors)+k+c.Case/13)
 		if u == nil {
 			c.Count("option_vectors_without_grammar", 1)
 			continue
@@ -692,6 +804,19 @@ func c11Case(c *fw.Ctx, vectors []int, nTexts int) {
 				other++
 			}
 		}
+		lxg := m.u.pkg.G.Lexer
+		if len(m.u.g.Decls) > 0 && lxg.RuleToken == nil {
+			c.Count("tokens_after_fallback_inlined_patternless", fb)
+		}
+		if !m.u.g.Opts.ScanBytes {
+			var hi int64
+			for _, ch := range m.text {
+				if ch >= 0x100 {
+					hi++
+				}
+			}
+			c.Count("tokens_above_latin1_by_band/"+c11BandName(lxg.Tables.LastMapEntry().Start), hi)
+		}
 		c.Count("tokens_compared", int64(len(m.want)))
 		c.Count("tokens_keyword", kw)
 		c.Count("tokens_keyword_non_ascii", nonASCIIkw)
@@ -720,6 +845,15 @@ func c11Case(c *fw.Ctx, vectors []int, nTexts int) {
 		}
 		if lx.Tables.LastMapEntry().Start > 2048 {
 			c.Count("grammars_using_mapRune", 1)
+		}
+		if !u.g.Opts.ScanBytes {
+			c.Count("symbol_map_ends/"+c11BandName(lx.Tables.LastMapEntry().Start), 1)
+		}
+		if len(u.g.Decls) > 0 {
+			c.Count("grammars_with_patternless_tokens", 1)
+			if lx.RuleToken == nil && len(lx.Tables.Backtrack) > 0 {
+				c.Count("grammars_inlined_with_backtracking_and_patternless_tokens", 1)
+			}
 		}
 		if len(lx.Tables.Backtrack) > 0 {
 			c.Count("grammars_with_backtracking", 1)
@@ -793,7 +927,9 @@ func init() {
 		},
 		RequiredCounters: []string{"tokens_compared", "tokens_keyword", "tokens_keyword_non_ascii", "tokens_class", "tokens_invalid", "tokens_after_fallback", "tokens_in_non_initial_state",
 			"texts_with_bom", "texts_invalid_utf8", "grammars_with_rule_ids_not_inlined", "grammars_with_token_ids_inlined", "grammars_using_mapRune", "grammars_with_backtracking",
-			"grammars_with_start_conditions", "grammars_with_class_rules", "grammars_with_non_ascii_keywords", "grammars_with_named_patterns"},
+			"grammars_with_start_conditions", "grammars_with_class_rules", "grammars_with_non_ascii_keywords", "grammars_with_named_patterns",
+			"grammars_inlined_with_backtracking_and_patternless_tokens", "tokens_after_fallback_inlined_patternless",
+			"symbol_map_ends/below-256", "symbol_map_ends/256-2048", "symbol_map_ends/2049-4096", "symbol_map_ends/4097-65536", "symbol_map_ends/astral", "tokens_above_latin1_by_band/2049-4096"},
 		CPUBudget: 900,
 	})
 }
